@@ -7,6 +7,9 @@ import (
 	"strings"
 	"testing"
 
+	"github.com/Oneledger/protocol/action"
+	"github.com/Oneledger/protocol/external_apps/bid/bid_data"
+
 	"verif/harness"
 )
 
@@ -53,7 +56,7 @@ func printable(b []byte) string {
 
 // bookkeeping keys change in every block, whatever the block contains
 func isBookkeeping(k []byte) bool {
-	for _, p := range []string{"rwz", "ri", "rwaddr", "rwcum", "es__", "f_", "b_rewardpool", "v_", "g_", "keeper_block", "b_7265"} {
+	for _, p := range []string{"rwz", "ri", "rwaddr", "rwcum", "es__", "f_", "b_0lt726577617264706f6f6c_", "v_", "g_"} {
 		if bytes.HasPrefix(k, []byte(p)) {
 			return true
 		}
@@ -198,4 +201,42 @@ func TestExploreOLVM(t *testing.T) {
 	k := ContractAddr(EB, 0)
 	s.step("kill", OLVMCall(w, EA, k, 7, harness.Amt("0"), nil))
 	s.step("empty")
+}
+
+func TestExploreBid(t *testing.T) {
+	if os.Getenv("XCH_EXPLORE") == "" {
+		t.Skip()
+	}
+	defer quiet()()
+	w := harness.NewWorld("explore", 4, 3)
+	x, err := harness.StartRun(w)
+	if err != nil {
+		t.Fatal(err)
+	}
+	defer x.Close()
+	s := &stepper{t, x}
+	A, B, C := w.Users[0], w.Users[1], w.Users[2]
+	olt := func(n int64) action.Amount { return harness.Coin("OLT", harness.OLTUnits(n)) }
+	deadline := w.GenesisTime.Unix() + 17*8
+	s.step("empty")
+	s.step("domain", DomainCreate(A, "alice.ol", olt(110), "d1"))
+	s.step("empty")
+	r := s.step("bid-create", BidCreate("", A.Addr, "alice.ol", bid_data.BidAssetOns, B, olt(20), deadline, "b1"))
+	id := BidConvID(A.Addr, "alice.ol", bid_data.BidAssetOns, B.Addr, r.Height)
+	t.Logf("conv id %s", id)
+	s.step("counter", BidCounterOffer(id, A, olt(30), "c1"))
+	s.step("bid-again", BidCreate(id, nil, "", 0, B, olt(25), 0, "b2"))
+	s.step("counter2", BidCounterOffer(id, A, olt(28), "c2"))
+	s.step("accept", BidBidderDecision(id, B, bid_data.AcceptBid, "a1"))
+	// second conversation: expire
+	r = s.step("bid-create2", BidCreate("", B.Addr, "alice.ol", bid_data.BidAssetOns, C, olt(5), deadline, "b3"))
+	id2 := BidConvID(B.Addr, "alice.ol", bid_data.BidAssetOns, C.Addr, r.Height)
+	for i := 0; i < 4; i++ {
+		s.step("wait")
+	}
+	// third: example asset, expired by anybody at once
+	r = s.step("bid-create3", BidCreate("", A.Addr, "thing", bid_data.BidAssetExample, C, olt(5), deadline+1000, "b4"))
+	id3 := BidConvID(A.Addr, "thing", bid_data.BidAssetExample, C.Addr, r.Height)
+	s.step("expire-by-anyone", BidExpire(id3, B, "e1"))
+	_ = id2
 }
